@@ -143,13 +143,13 @@ Proof. induction xs; cbn; [reflexivity|]. now rewrite IHxs. Qed.
 Lemma opt_all_none {A} (l : list (option A)) :
   opt_all l = None <-> In None l.
 Proof.
-  induction l as [|o l IH]; cbn; [split; [discriminate|tauto]|].
-  destruct o as [x|]; cbn.
-  - destruct (opt_all l); cbn; split; intros H; try discriminate; try tauto.
-    + destruct H as [H|H]; [discriminate|]. apply IH in H; discriminate.
-    + right; now apply IH.
-    + reflexivity.
-  - split; auto.
+  induction l as [|o l IH]; cbn.
+  - split; [discriminate|tauto].
+  - destruct o as [x|]; cbn.
+    + destruct (opt_all l) as [ys|]; cbn.
+      * split; [discriminate|]. intros [H|H]; [discriminate|]. apply IH in H. discriminate.
+      * split; [intros _; right; apply IH; reflexivity|intros _; reflexivity].
+    + split; auto.
 Qed.
 
 (** * encode: len-1 aligned (input, label) pairs, and it fails exactly when a call fails *)
@@ -170,19 +170,16 @@ Section Encode.
     apply opt_all_some in Hps.
     assert (Hlen : length ps = Z.to_nat (len - 1)).
     { apply (f_equal (@length _)) in Hps. now rewrite !map_length, zrange_length in Hps. }
-    repeat split; try (unfold zlen; rewrite map_length; lia).
-    - apply (f_equal (fun l => nth_error l (Z.to_nat i))) in Hps.
-      rewrite !nth_error_map, zrange_nth_error in Hps by lia. cbn in Hps.
-      rewrite Z2Nat.id in Hps by lia.
-      destruct (inp i) as [x|]; cbn in Hps; [|destruct (nth_error ps _); discriminate].
-      destruct (lab (i + 1)) as [l|]; cbn in Hps; [|destruct (nth_error ps _); discriminate].
-      destruct (nth_error ps _) as [[x' l']|]; cbn in *; congruence.
-    - apply (f_equal (fun l => nth_error l (Z.to_nat i))) in Hps.
-      rewrite !nth_error_map, zrange_nth_error in Hps by lia. cbn in Hps.
-      rewrite Z2Nat.id in Hps by lia.
-      destruct (inp i) as [x|]; cbn in Hps; [|destruct (nth_error ps _); discriminate].
-      destruct (lab (i + 1)) as [l|]; cbn in Hps; [|destruct (nth_error ps _); discriminate].
-      destruct (nth_error ps _) as [[x' l']|]; cbn in *; congruence.
+    split; [unfold zlen; rewrite map_length; lia|].
+    split; [unfold zlen; rewrite map_length; lia|].
+    intros i Hi.
+    apply (f_equal (fun l => nth_error l (Z.to_nat i))) in Hps.
+    rewrite !nth_error_map, zrange_nth_error in Hps by lia. cbn in Hps.
+    rewrite Z2Nat.id in Hps by lia. rewrite !nth_error_map.
+    destruct (inp i) as [x|]; cbn in Hps; [|destruct (nth_error ps _); discriminate].
+    destruct (lab (i + 1)) as [l|]; cbn in Hps; [|destruct (nth_error ps _); discriminate].
+    destruct (nth_error ps _) as [[x' l']|]; cbn in *; [|discriminate].
+    inversion Hps; subst. split; reflexivity.
   Qed.
 
   Lemma encode_with_none len :
@@ -303,7 +300,7 @@ Proof.
   intros Henc Hdec. apply encode_aligned in Henc. destruct Henc as (_ & Hll & Hal).
   destruct es as [|e0 rest].
   - cbn in *. destruct labs; [reflexivity|]. rewrite zlen_cons in Hll. pose proof (zlen_nonneg labs). lia.
-  - cbn [firstn]. change (e0 :: rest) with ([e0] ++ rest) at 2. rewrite zlen_cons in *.
+  - cbn [firstn]. change (Some (e0 :: rest)) with (Some ([e0] ++ rest)). rewrite zlen_cons in *.
     pose proof (zlen_nonneg rest).
     apply generate_roundtrip; [unfold zlen in *; lia|].
     intros j Hj.
@@ -318,17 +315,22 @@ Qed.
 Definition count1 (v : list Z) : Z := zlen (filter (Z.eqb 1) v).
 Definition is_one_hot (v : list Z) : Prop := count1 v = 1 /\ Forall (fun x => x = 0 \/ x = 1) v.
 
+Lemma filter1_repeat0 m : filter (Z.eqb 1) (repeat 0 m) = [].
+Proof. induction m; cbn; auto. Qed.
+
+Lemma Forall01_repeat0 m : Forall (fun x => x = 0 \/ x = 1) (repeat 0 m).
+Proof. induction m; cbn; constructor; auto. Qed.
+
 Lemma upd_zeros_one_hot m c : (c < m)%nat -> is_one_hot (upd c 1 (repeat 0 m)).
 Proof.
   revert c; induction m as [|m IH]; intros c Hc; [lia|].
   destruct c as [|c]; cbn [repeat upd].
   - split.
-    + unfold count1; cbn. rewrite zlen_cons.
-      assert (filter (Z.eqb 1) (repeat 0 m) = []) as ->; [|reflexivity].
-      clear; induction m; cbn; auto.
-    + constructor; [now right|]. clear; induction m; cbn; constructor; auto.
+    + unfold count1. cbn [filter]. change (1 =? 1) with true. cbv iota.
+      now rewrite filter1_repeat0.
+    + constructor; [now right|apply Forall01_repeat0].
   - destruct (IH c ltac:(lia)) as [Hc1 Hf]. split.
-    + unfold count1 in *; cbn. exact Hc1.
+    + unfold count1 in *. cbn [filter]. change (1 =? 0) with false. cbv iota. exact Hc1.
     + constructor; [now left|exact Hf].
 Qed.
 
@@ -368,10 +370,10 @@ Section OneHotSeq.
   Proof.
     intros He Hp Hv. destruct (enc_ok e Hv) as (c & Hc & Hr & Hd).
     unfold ohs_input. rewrite py_nth_pos, He by lia. cbn. rewrite Hc; cbn.
-    rewrite py_set_pos by (rewrite zeros_length; lia).
-    eexists _, c. split; [reflexivity|]. split; [reflexivity|].
-    destruct (py_set_zeros_one_hot n c (upd (Z.to_nat c) 1 (zeros n))) as (H1 & H2 & H3); auto.
-    rewrite py_set_pos by (rewrite zeros_length; lia). reflexivity.
+    assert (py_set (zeros n) c 1 = Some (upd (Z.to_nat c) 1 (zeros n))) as Hs
+      by (apply py_set_pos; rewrite zeros_length; lia).
+    rewrite Hs. eexists _, c. split; [reflexivity|]. split; [reflexivity|].
+    destruct (py_set_zeros_one_hot n c _ Hs) as (H1 & H2 & H3); [lia|]. auto.
   Qed.
 
   Theorem onehot_index_input es p e :
@@ -453,7 +455,7 @@ Section Conditional.
     intros Henc Hdec. apply conditional_encode_aligned in Henc. destruct Henc as (_ & _ & Hll & Hal).
     destruct ts as [|e0 rest].
     - cbn in *. destruct labs; [reflexivity|]. rewrite zlen_cons in Hll. pose proof (zlen_nonneg labs). lia.
-    - cbn [firstn]. change (e0 :: rest) with ([e0] ++ rest) at 2. rewrite zlen_cons in *.
+    - cbn [firstn]. change (Some (e0 :: rest)) with (Some ([e0] ++ rest)). rewrite zlen_cons in *.
       pose proof (zlen_nonneg rest).
       apply generate_roundtrip; [unfold zlen in *; lia|].
       intros j Hj.
